@@ -308,13 +308,90 @@ func run(c Case) *hx.Outcome {
 	return o
 }
 
-func TestProp(t *testing.T)    { prop.Check(t) }
-func TestRegress(t *testing.T) { prop.Regress(t) }
+// ---- parallel: the same accounting when connections overlap ----
+
+// PCase: several connections deliver at once, mostly to mailboxes that do not exist yet.
+type PCase struct {
+	Backend  string      `json:"backend"`
+	Naming   string      `json:"naming"`
+	Barrier  bool        `json:"barrier"`
+	Sessions [][]hx.PTxn `json:"sessions"`
+}
+
+var propParallel = hx.Prop[PCase]{
+	ID: pid, Name: "parallel",
+	Rule: "2-10 SMTP connections run at once, each 1-3 transactions with 1-3 recipients from three mailboxes that do not exist when the case starts " +
+		"(accept/store everything, mem or file store, any naming mode); in most cases the connections hold their final dot until all have sent their " +
+		"data and release it together; afterwards every recipient of every transaction acknowledged with 250 must have gained exactly one copy " +
+		"(matched by sender and content) and nothing else may exist; non-trivial = at least two connections delivered to one mailbox in the same " +
+		"round; distinct = distinct case JSON",
+	Quick: 120, Thorough: 1200,
+	Gen: func(t *rapid.T) PCase {
+		c := PCase{Backend: rapid.SampledFrom([]string{"mem", "mem", "file"}).Draw(t, "backend"), Naming: rapid.SampledFrom([]string{"local", "local", "full", "domain"}).Draw(t, "naming"),
+			Barrier: rapid.IntRange(0, 3).Draw(t, "barrier") > 0}
+		txn := rapid.Custom(func(t *rapid.T) hx.PTxn {
+			return hx.PTxn{
+				Rcpts: rapid.SliceOfNDistinct(rapid.SampledFrom([]string{"p0@a.test", "p1@a.test", "p2@b.test"}), 1, 3, func(s string) string { return s }).Draw(t, "rcpts"),
+				Body:  []byte(rapid.SampledFrom([]string{"x\r\n", "hello\r\nworld\r\n", ""}).Draw(t, "body")),
+			}
+		})
+		c.Sessions = rapid.SliceOfN(rapid.SliceOfN(txn, 1, 3), 2, 10).Draw(t, "sessions")
+		return c
+	},
+	Run: func(c PCase) *hx.Outcome {
+		o := &hx.Outcome{}
+		cfg := hx.DefaultCfg()
+		cfg.Backend, cfg.Naming, cfg.NoHTTP = c.Backend, c.Naming, true
+		w, err := hx.NewWorld(cfg)
+		if err != nil {
+			o.Failf(pid+":harness", "world: %v", err)
+			return o
+		}
+		defer w.Close()
+		acked, problems := hx.RunParallel(w, c.Sessions, c.Barrier)
+		for _, p := range problems {
+			o.Failf(pid+":parallel-session", "%s", p)
+		}
+		if o.Failed() {
+			return o
+		}
+		model := hx.NewEModel()
+		for _, e := range acked {
+			model.Add(e)
+		}
+		hx.SortForUnordered(w.Store, model)
+		if err := hx.CmpE2E(w.Store, model, nil); err != nil {
+			o.Failf(pid+":parallel-store-differs", "[%s, %s naming, %d connections, barrier=%v] after all connections finished: %v", c.Backend, c.Naming, len(c.Sessions), c.Barrier, err)
+		}
+		// two connections delivering to one mailbox in the same round
+		for r := 0; r < 3 && !o.NonTrivial; r++ {
+			seen := map[string]int{}
+			for _, s := range c.Sessions {
+				if r < len(s) {
+					for _, rc := range s[r].Rcpts {
+						seen[rc]++
+						if seen[rc] >= 2 {
+							o.NonTrivial = true
+						}
+					}
+				}
+			}
+		}
+		o.Class(fmt.Sprintf("backend %s", c.Backend))
+		if c.Barrier {
+			o.Class("final dots released together")
+		}
+		return o
+	},
+}
+
+func TestProp(t *testing.T)    { prop.Check(t); propParallel.Check(t) }
+func TestRegress(t *testing.T) { prop.Regress(t); propParallel.Regress(t) }
 func TestReplay(t *testing.T) {
 	if *hx.ReplayPath == "" {
 		t.Skip("no -replay")
 	}
-	if !prop.Replay(t, *hx.ReplayPath) {
+	if !prop.Replay(t, *hx.ReplayPath) && !propParallel.Replay(t, *hx.ReplayPath) {
 		t.Fatalf("no prop matches %s", *hx.ReplayPath)
 	}
 }
